@@ -112,8 +112,38 @@ func HashRules(c *core.Ctx, p *packages.Package) {
 			}
 			eqX, hX := expand(eqI), expand(hI)
 			var extra []string
+			// a local built only from instances the equality is built from (pt := Tuple2(ins2, ins3); seqHash := Seq(hashT))
+			// adds no component of its own
+			var covered func(o types.Object, depth int) bool
+			covered = func(o types.Object, depth int) bool {
+				if eqX[o] {
+					return true
+				}
+				if depth > 4 {
+					return false
+				}
+				defs, ok := 0, true
+				ast.Inspect(fb.Body, func(y ast.Node) bool {
+					as, isAs := y.(*ast.AssignStmt)
+					if !isAs || len(as.Lhs) != 1 || len(as.Rhs) != 1 || objOf(info, as.Lhs[0]) != o {
+						return true
+					}
+					defs++
+					deps := instanceObjs(info, as.Rhs[0])
+					if len(deps) == 0 {
+						ok = false
+					}
+					for d := range deps {
+						if d == o || !covered(d, depth+1) {
+							ok = false
+						}
+					}
+					return true
+				})
+				return defs > 0 && ok
+			}
 			for o := range hX {
-				if !eqX[o] {
+				if !covered(o, 0) {
 					extra = append(extra, o.Name())
 				}
 			}
